@@ -606,9 +606,9 @@ template <class P> static void configClassic(P& p, const Feat& f, SecurityManage
     p.setHandleMultipleImports(f.b("multiimp", false));
     p.setDisallowDoctype(f.b("nodoctype", false));
     p.setIgnoreCachedDTD(f.b("ignorecacheddtd", false));
-    if (f.has("lowwater")) p.setLowWaterMark((XMLSize_t)f.i("lowwater", 100));
-    if (f.has("cachegrammar")) p.cacheGrammarFromParse(f.b("cachegrammar", false));
-    if (f.has("usecached")) p.useCachedGrammarInParse(f.b("usecached", false));
+    p.setLowWaterMark((XMLSize_t)f.i("lowwater", 100));
+    p.cacheGrammarFromParse(f.b("cachegrammar", false));
+    p.useCachedGrammarInParse(f.b("usecached", false));
     if (f.has("extschema")) p.setExternalSchemaLocation(f.s("extschema").c_str());
     if (f.has("extnons")) p.setExternalNoNamespaceSchemaLocation(f.s("extnons").c_str());
     if (sm) p.setSecurityManager(sm);
@@ -618,8 +618,8 @@ static void configDOM(XercesDOMParser& p, const Feat& f, SecurityManager* sm) {
     p.setCreateEntityReferenceNodes(f.b("ere", true));
     p.setIncludeIgnorableWhitespace(f.b("iw", true));
     p.setCreateCommentNodes(f.b("comments", true));
-    if (f.has("psvi")) p.setCreateSchemaInfo(f.b("psvi", false));
-    if (f.has("xinclude")) p.setDoXInclude(f.b("xinclude", false));
+    p.setCreateSchemaInfo(f.b("psvi", false));
+    p.setDoXInclude(f.b("xinclude", false));
 }
 static void configSAX2(SAX2XMLReader& p, const Feat& f, SecurityManager* sm) {
     if (f.has("scanner")) p.setProperty(XMLUni::fgXercesScannerName, (void*)scannerName(f.s("scanner")));
@@ -641,10 +641,10 @@ static void configSAX2(SAX2XMLReader& p, const Feat& f, SecurityManager* sm) {
     p.setFeature(XMLUni::fgXercesSkipDTDValidation, f.b("skipdtdval", false));
     p.setFeature(XMLUni::fgXercesHandleMultipleImports, f.b("multiimp", false));
     p.setFeature(XMLUni::fgXercesIgnoreCachedDTD, f.b("ignorecacheddtd", false));
-    if (f.has("nodoctype")) p.setFeature(XMLUni::fgXercesDisallowDoctype, f.b("nodoctype", false));
-    if (f.has("lowwater")) { XMLSize_t lw = (XMLSize_t)f.i("lowwater", 100); p.setProperty(XMLUni::fgXercesLowWaterMark, &lw); }
-    if (f.has("cachegrammar")) p.setFeature(XMLUni::fgXercesCacheGrammarFromParse, f.b("cachegrammar", false));
-    if (f.has("usecached")) p.setFeature(XMLUni::fgXercesUseCachedGrammarInParse, f.b("usecached", false));
+    p.setFeature(XMLUni::fgXercesDisallowDoctype, f.b("nodoctype", false));
+    { XMLSize_t lw = (XMLSize_t)f.i("lowwater", 100); p.setProperty(XMLUni::fgXercesLowWaterMark, &lw); }
+    p.setFeature(XMLUni::fgXercesCacheGrammarFromParse, f.b("cachegrammar", false));
+    p.setFeature(XMLUni::fgXercesUseCachedGrammarInParse, f.b("usecached", false));
     if (f.has("extschema")) { X s(f.s("extschema")); p.setProperty(XMLUni::fgXercesSchemaExternalSchemaLocation, (void*)s.c()); }
     if (f.has("extnons")) { X s(f.s("extnons")); p.setProperty(XMLUni::fgXercesSchemaExternalNoNameSpaceSchemaLocation, (void*)s.c()); }
     if (sm) p.setProperty(XMLUni::fgXercesSecurityManager, sm);
@@ -673,11 +673,12 @@ static void configDOMLS(DOMLSParserImpl& p, const Feat& f, SecurityManager* sm) 
     setLS(c, XMLUni::fgDOMEntities, f.b("ere", true));
     setLS(c, XMLUni::fgDOMElementContentWhitespace, f.b("iw", true));
     setLS(c, XMLUni::fgDOMComments, f.b("comments", true));
-    if (f.has("psvi")) setLS(c, XMLUni::fgXercesDOMHasPSVIInfo, f.b("psvi", false));
-    if (f.has("xinclude")) setLS(c, XMLUni::fgXercesDoXInclude, f.b("xinclude", false));
-    if (f.has("cachegrammar")) setLS(c, XMLUni::fgXercesCacheGrammarFromParse, f.b("cachegrammar", false));
-    if (f.has("usecached")) setLS(c, XMLUni::fgXercesUseCachedGrammarInParse, f.b("usecached", false));
-    if (f.has("lowwater")) { XMLSize_t lw = (XMLSize_t)f.i("lowwater", 100); c->setParameter(XMLUni::fgXercesLowWaterMark, (const void*)&lw); }
+    setLS(c, XMLUni::fgXercesDOMHasPSVIInfo, f.b("psvi", false));
+    setLS(c, XMLUni::fgXercesDoXInclude, f.b("xinclude", false));
+    setLS(c, XMLUni::fgXercesCacheGrammarFromParse, f.b("cachegrammar", false));
+    setLS(c, XMLUni::fgXercesUseCachedGrammarInParse, f.b("usecached", false));
+    { XMLSize_t lw = (XMLSize_t)f.i("lowwater", 100); c->setParameter(XMLUni::fgXercesLowWaterMark, (const void*)&lw); }
+    if (c->canSetParameter(XMLUni::fgXercesDisallowDoctype, f.b("nodoctype", false))) c->setParameter(XMLUni::fgXercesDisallowDoctype, f.b("nodoctype", false));
     if (f.has("extschema")) { X s(f.s("extschema")); c->setParameter(XMLUni::fgXercesSchemaExternalSchemaLocation, (const void*)s.c()); }
     if (f.has("extnons")) { X s(f.s("extnons")); c->setParameter(XMLUni::fgXercesSchemaExternalNoNameSpaceSchemaLocation, (const void*)s.c()); }
     if (sm) c->setParameter(XMLUni::fgXercesSecurityManager, (const void*)sm);
